@@ -25,16 +25,16 @@ ASSUMPTIONS = ['hierarchical Galerkin matrices are built as I^T A_fine I from re
 
 def cases(tier, seed):
     variant = os.environ.get('VERIF_VARIANT', 'plain')
-    n = {'quick': 900, 'thorough': 20000}[tier]
+    n = {'quick': 900, 'thorough': 80000}[tier]
     if variant != 'plain': n = 1500
     for i in range(n):
         yield {'kind': 'gs', 'seed': seed, 'idx': i}
     if variant != 'plain': return
-    for i in range({'quick': 48, 'thorough': 900}[tier]):
+    for i in range({'quick': 48, 'thorough': 4000}[tier]):
         yield {'kind': 'mg', 'seed': seed, 'idx': i}
-    for i in range({'quick': 60, 'thorough': 1200}[tier]):
+    for i in range({'quick': 60, 'thorough': 5000}[tier]):
         yield {'kind': 'driver', 'seed': seed, 'idx': i}
-    for i in range({'quick': 40, 'thorough': 800}[tier]):
+    for i in range({'quick': 40, 'thorough': 3200}[tier]):
         yield {'kind': 'twogrid', 'seed': seed, 'idx': i}
 
 def _rand_system(rng, n, flavour):
